@@ -76,6 +76,27 @@ def while_true(n):
 def while_true_plain(q):
     while True:
         q.append(1)
+def serve(q, handle):
+    while True:
+        job = q.get()
+        for part in job:
+            handle(part)
+def serve_or_quit(q, handle):
+    if q is None:
+        return 0
+    while True:
+        job = q.get()
+        if job:
+            handle(job)
+        for part in job:
+            while part:
+                part = handle(part)
+def spin_two_ways(a):
+    while True:
+        if a:
+            a -= 1
+            continue
+        a += 2
 def counter():
     n = 0
     while True:
